@@ -175,6 +175,7 @@ func (c *SingleDestinationRoundTripper) roundTrip(req *http.Request) (*http.Resp
 			select {
 			case <-earlyConn.HandshakeComplete():
 			case <-req.Context().Done():
+				closeRequestBody(req)
 				return nil, req.Context().Err()
 			}
 		}
@@ -198,6 +199,7 @@ func (c *SingleDestinationRoundTripper) roundTrip(req *http.Request) (*http.Resp
 	reqDone := make(chan struct{})
 	str, err := c.hconn.openRequestStream(req.Context(), c.requestWriter, reqDone, c.DisableCompression, c.maxHeaderBytes())
 	if err != nil {
+		closeRequestBody(req)
 		return nil, err
 	}
 
@@ -272,6 +274,7 @@ func (c *SingleDestinationRoundTripper) sendRequestBody(str Stream, body io.Read
 
 func (c *SingleDestinationRoundTripper) doRequest(req *http.Request, str *requestStream) (*http.Response, error) {
 	if err := str.SendRequestHeader(req); err != nil {
+		closeRequestBody(req)
 		return nil, err
 	}
 	if req.Body == nil {
